@@ -64,6 +64,7 @@ fn judge(scn: &SimpScenario, acc: &mut Acc) -> Option<Violation> {
     let mut changed = 0u64;
     let mut max_ticks = 0u64;
     let mut late_refs = 0u64;
+    let mut batch_roots = 0u64;
     let out = guarded(|| {
         let mut ctx = Context::default();
         let mut pool: Vec<Option<ExprRef>> = vec![];
@@ -178,11 +179,64 @@ fn judge(scn: &SimpScenario, acc: &mut Acc) -> Option<Violation> {
                 return Ok(());
             }
         }
+        // the same expressions as one batch: roots of a transition system simplified by the
+        // system-level pass (one rewriting run over all roots with its own dense cache), and one
+        // at a time through the convenience wrapper
+        if !answers.is_empty() {
+            let mut sys = patronus::system::TransitionSystem::new("batch".to_string());
+            let mut roots: Vec<(ExprRef, ExprRef)> = vec![];
+            for (e, a) in &answers {
+                if !roots.iter().any(|r| r.0 == *e) {
+                    sys.add_output(&mut ctx, format!("o{}", roots.len()).into(), *e);
+                    roots.push((*e, *a));
+                }
+            }
+            *current.borrow_mut() = format!("the batch of {} roots", roots.len());
+            patronus::verif_fuel::set_fuel(Some(FUEL * roots.len() as u64));
+            patronus::system::transform::simplify_expressions(&mut ctx, &mut sys);
+            batch_roots = roots.len() as u64;
+            for (i, (e, a)) in roots.iter().enumerate() {
+                let got = sys.outputs[i].expr;
+                if got != *a {
+                    result = Some(mk(
+                        "BatchDependent",
+                        "system-pass-vs-single",
+                        format!(
+                            "simplify({}) gives {} on its own but {} when simplified as root #{i} of a batch of {} roots by simplify_expressions",
+                            e.serialize_to_str(&ctx),
+                            a.serialize_to_str(&ctx),
+                            got.serialize_to_str(&ctx),
+                            roots.len()
+                        ),
+                    ));
+                    return Ok(());
+                }
+            }
+            for (e, a) in roots.iter().take(4) {
+                *current.borrow_mut() = e.serialize_to_str(&ctx);
+                patronus::verif_fuel::set_fuel(Some(FUEL));
+                let got = patronus::expr::simplify_single_expression(&mut ctx, *e);
+                if got != *a {
+                    result = Some(mk(
+                        "CacheDependent",
+                        "simplify_single_expression",
+                        format!(
+                            "simplify_single_expression({}) gives {} but a simplifier instance gives {}",
+                            e.serialize_to_str(&ctx),
+                            got.serialize_to_str(&ctx),
+                            a.serialize_to_str(&ctx)
+                        ),
+                    ));
+                    return Ok(());
+                }
+            }
+        }
         patronus::verif_fuel::set_fuel(None);
         Ok(())
     });
     patronus::verif_fuel::set_fuel(None);
     acc.count("simplify_requests", n_req);
+    acc.count("probe.batch_of_roots_through_system_pass", (batch_roots >= 2) as u64);
     acc.count("probe.request_answered_from_cache", from_cache);
     acc.count("probe.request_changed_expression", changed);
     acc.count("probe.request_on_ref_created_after_the_caches", late_refs);
@@ -360,7 +414,7 @@ impl Property for C13 {
                 "no particular normal form is demanded, only repeatability".into(),
                 "termination is stated as a step bound (10^6 rewrite-loop iterations), not wall-clock".into(),
             ],
-            real_components: vec!["expr::Simplifier<SparseExprMap>", "expr::Simplifier<DenseExprMetaData>", "expr::transform::do_transform_expr", "expr::meta::get_fixed_point", "all rewrite rules in expr/simplify.rs"],
+            real_components: vec!["expr::Simplifier<SparseExprMap>", "expr::Simplifier<DenseExprMetaData>", "expr::simplify_single_expression", "system::transform::simplify_expressions (batch route)", "expr::transform::do_transform_expr", "expr::meta::get_fixed_point", "all rewrite rules in expr/simplify.rs"],
             stub_components: vec!["none (scheduler of logical clients; fresh simplifier as sequential specification)"],
             distinct_measure: "distinct (pool, request order) sequences".into(),
             distinct2_measure: "distinct pools".into(),
